@@ -40,10 +40,20 @@ def is_const(t):
     return isinstance(t, tuple) and t and t[0] == "c"
 
 
+# keyword arguments are kept as (name, term) pairs inside call / mcall / apply terms; a pair whose name happens to be a
+# term head of another arity (`idx=idx` in the node constructors) must not be mistaken for a term by the generic walkers
+_ARITY_NOT_2 = {"idx": 3, "attr": 3, "cmp": 4, "ite": 4, "call": 4, "mcall": 5, "apply": 4, "div": 3, "cat": 3, "strcat": 3, "acc": 3, "res": 3,
+                "slice": 5, "repeat": 3, "setitem": 4, "sf": 3, "fmt": 4, "pow": 3, "mod": 3, "floordiv": 3}
+
+
+def is_term(x):
+    return isinstance(x, tuple) and bool(x) and isinstance(x[0], str) and not (len(x) == 2 and x[0] in _ARITY_NOT_2)
+
+
 def mentions(t, pred):
     if not isinstance(t, tuple):
         return False
-    if t and isinstance(t[0], str) and pred(t):
+    if is_term(t) and pred(t):
         return True
     return any(mentions(x, pred) for x in t if isinstance(x, tuple))
 
@@ -56,7 +66,7 @@ def subst(t, f):
     """Bottom-up rewrite: f(term) -> replacement or None."""
     if not isinstance(t, tuple) or not t:
         return t
-    is_term = isinstance(t[0], str)
+    is_term = globals()["is_term"](t)
     if is_term:
         r = f(t)
         if r is not None:
@@ -255,6 +265,38 @@ def simp(t):
             return ("call", name, tuple(sorted(args, key=key)), t[3])
         return t
     return t
+
+
+def deep_simp(t):
+    """simp applied bottom-up at every node (after substitutions that leave parents unsimplified)."""
+    if not isinstance(t, tuple) or not t:
+        return t
+    if is_term(t):
+        new = (t[0],) + tuple(deep_simp(x) if isinstance(x, tuple) else x for x in t[1:])
+        if new[0] == "truthy" and new[1][0] == "ite":
+            return deep_simp(("ite", new[1][1], ("truthy", new[1][2]), ("truthy", new[1][3])))
+        if new[0] == "ite" and new[2] == new[3]:
+            return new[2]
+        if new[0] == "ite" and new[1] == TRUE:
+            return new[2]
+        if new[0] == "ite" and new[1] == FALSE:
+            return new[3]
+        if new[0] == "ite" and new[2] == TRUE and new[3] == FALSE:
+            return new[1]
+        if new[0] in ("and", "or"):
+            neutral, absorbing = (TRUE, FALSE) if new[0] == "and" else (FALSE, TRUE)
+            items = [x for x in new[1] if x != neutral]
+            if absorbing in items:
+                return absorbing
+            if not items:
+                return neutral
+            if len(items) == 1:
+                return items[0]
+            new = (new[0], tuple(items))
+        return simp(new)
+    if isinstance(t[0], str):          # a (keyword name, term) pair
+        return (t[0],) + tuple(deep_simp(x) if isinstance(x, tuple) else x for x in t[1:])
+    return tuple(deep_simp(x) if isinstance(x, tuple) else x for x in t)
 
 
 def assume(t, c, val):
@@ -669,6 +711,18 @@ class SymX:
         loop = Loop(next(self._ids), "for", s)
         self.loops[loop.id] = loop
         loop.source = self._iter_source(s.iter, st, f, depth, loop)
+        # a search over a short literal table that leaves by `return` (`for k, v in TABLE: if x == k: return v`) is
+        # executed element by element; the loop summary cannot express an early return anyway
+        src_t = loop.source
+        if src_t[0] in ("tup", "list") and 1 <= len(src_t[1]) <= 8 and loop.whole and not loop.enumerated \
+                and any(isinstance(n, ast.Return) for b in s.body for n in ast.walk(b)) \
+                and not any(isinstance(n, (ast.Break, ast.Continue, ast.For, ast.While)) for b in s.body for n in ast.walk(b)):
+            del self.loops[loop.id]
+            for el in src_t[1]:
+                self.assign(s.target, el, st, f, depth)
+                st = self.block(s.body, st, f, depth)
+                st.dead = False
+            return st
         carried = [n for n in self._assigned_in(s.body)]
         tgt_names = [n.id for n in ast.walk(s.target) if isinstance(n, ast.Name)]
         carried = [n for n in carried if n not in tgt_names]
@@ -883,6 +937,11 @@ class SymX:
                 return C(v)
             if ok and isinstance(v, (tuple, list)) and all(isinstance(x, (int, float, str, bool, type(None))) for x in v) and e.id not in f.mod.funcs:
                 return ("tup" if isinstance(v, tuple) else "list", tuple(C(x) for x in v))
+            if not ok and e.id in f.mod.consts and isinstance(f.mod.consts[e.id], (ast.Tuple, ast.List)) and len(f.mod.consts[e.id].elts) <= 12 \
+                    and not any(isinstance(n, (ast.Call, ast.Lambda, ast.ListComp, ast.GeneratorExp, ast.Starred)) for n in ast.walk(f.mod.consts[e.id])) \
+                    and not self._module_object_modified(f.mod, e.id):
+                # a module-level table of constants and class / function names: ((PLAYER_1, PlayerOne), ...)
+                return self.expr(f.mod.consts[e.id], State(), f, depth)
             if ok and isinstance(v, dict) and all(isinstance(k_, (int, str)) and isinstance(x, (int, float, str, bool, type(None))) for k_, x in v.items()) \
                     and not self._module_object_modified(f.mod, e.id):
                 return ("dict", tuple((C(k_), C(x)) for k_, x in v.items()))
@@ -1082,6 +1141,11 @@ class SymX:
                         self.cls_name = saved
             if callees or not isinstance(c.func.value, ast.Name) or c.func.value.id in st.env:
                 return simp(("mcall", recv, c.func.attr, args, kws))
+        if not isinstance(c.func, (ast.Name, ast.Attribute)):
+            fv = ev(c.func)                                   # table[key](...), factory()(...)
+            if fv[0] == "closure" and depth < self.inline_depth + 2:
+                return self.inline_closure(fv[1], args, kws, st, depth)
+            return ("apply", fv, args, kws)
         return simp(("call", name, args, kws))
 
     @staticmethod
@@ -1238,6 +1302,9 @@ def show(t):
     if h == "mcall":
         a = [show(x) for x in t[3]] + ["%s=%s" % (k, show(v)) for k, v in t[4]]
         return "%s.%s(%s)" % (show(t[1]), t[2], ", ".join(a))
+    if h == "apply" and len(t) == 4:
+        a = [show(x) for x in t[2]] + ["%s=%s" % (k, show(v)) for k, v in t[3]]
+        return "(%s)(%s)" % (show(t[1]), ", ".join(a))
     if h == "acc":
         return "%s@L%d" % (t[2], t[1])
     if h == "res":
